@@ -265,17 +265,17 @@ Definition exec_op (o : opcode) (st : mstate) : outcome mstate :=
       do '(a, st1) <- pop_account st; do '(v, st2) <- pop st1;
       match v with
       | VAsset s =>
-          if bal_has_account (bals st2) a then
-            match bal_get (bals st2) a s with
-            | Some z => if 0 <? z then Done (set_bals st2 (bal_set (bals st2) a s 0)) else Done st2
-            | None => Done (set_bals st2 (bal_set (bals st2) a s 0))
-            end
-          else Done st2
+          (* only a tracked, positive balance is lowered; untracked pairs are left alone *)
+          match bal_get (bals st2) a s with
+          | Some z => if 0 <? z then Done (set_bals st2 (bal_set (bals st2) a s 0)) else Done st2
+          | None => Done st2
+          end
       | VMonetary s amt =>
           if amt <? 0 then Err EOtherRun
-          else if bal_has_account (bals st2) a then
-            Done (set_bals st2 (bal_set (bals st2) a s (match bal_get (bals st2) a s with Some z => z | None => 0 end - amt)))
-          else Done st2
+          else match bal_get (bals st2) a s with
+               | Some z => Done (set_bals st2 (bal_set (bals st2) a s (z - amt)))
+               | None => Done st2
+               end
       | _ => Panic PSaveType
       end
   end.
